@@ -32,7 +32,7 @@ ASSUMPTIONS = [
     "default options op.reindex=True, op.broadcast=True",
 ]
 MANDATORY = ["rel:permuted", "rel:overlapping", "rel:disjoint", "rel:subset", "rel:superset", "rel:equal", "dims:reordered", "dims:b-has-new",
-             "dims:a-has-extra", "labels:s", "labels:int-vs-float", "operand:scalar", "operand:ndarray", "storage:shuf"]
+             "dims:a-has-extra", "labels:s", "labels:int-vs-float", "operand:scalar", "operand:ndarray", "storage:shuf", "dtype-checked:ii->i", "dtype-checked:ii->f", "dtype-checked:if->f"]
 
 OPS = {"+": np.add, "-": np.subtract, "*": np.multiply, "/": np.true_divide, "//": np.floor_divide, "**": np.power}
 PYOPS = {"+": operator.add, "-": operator.sub, "*": operator.mul, "/": operator.truediv, "//": operator.floordiv, "**": operator.pow}
@@ -77,11 +77,12 @@ def pair_case(draw, max_dims=3):
         b["nan"] = draw(st.lists(st.integers(0, nb - 1), min_size=1, max_size=max(1, nb // 2), unique=True))
     op = draw(st.sampled_from(list(OPS)))
     if op == "**":
-        # keep powers representable: small injective float values
-        for s in (a, b):
+        # keep powers representable: small injective float values, or small integers (integer powers of integers stay integers)
+        ints = draw(st.booleans())
+        for j, s in enumerate((a, b)):
             n = int(np.prod([len(l) for l in s["labels"]])) if s["labels"] else 1
-            s["vk"] = "f"
-            s["vals"] = [2.0 + 0.25 * k for k in range(n)]
+            s["vk"] = "i" if ints else "f"
+            s["vals"] = [2 + k % (7 if j == 0 else 3) for k in range(n)] if ints else [2.0 + 0.25 * k for k in range(n)]
             s.pop("nan", None)
     return {"mode": "pair", "a": a, "b": b, "op": op}
 
@@ -94,8 +95,9 @@ def other_case(draw):
     kind = draw(st.sampled_from(["pyint", "pyfloat", "npint", "npfloat", "ndarray-same", "ndarray-bcast", "0d-array"]))
     if op == "**":
         n = int(np.prod([len(l) for l in a["labels"]])) if a["labels"] else 1
-        a["vk"] = "f"
-        a["vals"] = [2.0 + 0.25 * k for k in range(n)]
+        ints = draw(st.booleans())
+        a["vk"] = "i" if ints else "f"
+        a["vals"] = [2 + k % 7 for k in range(n)] if ints else [2.0 + 0.25 * k for k in range(n)]
     return {"mode": "other", "a": a, "op": op, "kind": kind, "s": draw(st.sampled_from([2, 3, 5])), "reverse": draw(st.booleans())}
 
 
@@ -111,7 +113,7 @@ def _scalar_op(op, x, y):
         return OPS[op](np.asarray(x), np.asarray(y)).item()
 
 
-def check_binary(res, ma, mb, op, what, sig):
+def check_binary(res, ma, mb, op, what, sig, dtypes=None, cl=None):
     """res must be the label-wise result of (model a) op (model b)"""
     da = core.env.import_dimarray()
     exp_dims = list(ma.dims) + [d for d in mb.dims if d not in ma.dims]
@@ -146,6 +148,15 @@ def check_binary(res, ma, mb, op, what, sig):
         if not core.same_scalar(got, exp, tol=True):
             raise Violation("value", {"what": what, "coord": core.jsonable(c), "got": core.jsonable(got), "expected": core.jsonable(exp),
                                       "a_has": ka in ma.cells, "b_has": kb in mb.cells}, sig=sig)
+    # "equals a[coord] op b[coord]": where no coordinate needs the NaN fill, the result also has the type of that scalar operation
+    # (integers combined by + - * // ** stay integers: beyond 2**53 a float result no longer equals a[coord] op b[coord])
+    if dtypes is not None and mr.cells and all(tuple(dict(zip(exp_dims, coord))[d] for d in ma.dims) in ma.cells and
+                                               tuple(dict(zip(exp_dims, coord))[d] for d in mb.dims) in mb.cells for coord in mr.coords()):
+        with np.errstate(all="ignore"):
+            kind = OPS[op](np.full(1, 2, dtype=dtypes[0]), np.full(1, 2, dtype=dtypes[1])).dtype.kind
+        check(res.values.dtype.kind == kind, "result-dtype-kind", {"what": what, "got": str(res.values.dtype), "operands": [str(x) for x in dtypes], "expected_kind": kind}, sig)
+        if cl is not None:
+            cl.add("dtype-checked:%s%s->%s" % (dtypes[0].kind, dtypes[1].kind, kind))
 
 
 def run_pair(case):
@@ -156,13 +167,13 @@ def run_pair(case):
     ma, mb = core.model_of_spec(case["a"]), core.model_of_spec(case["b"])
     sig = {"mode": "pair", "op": op}
     what = "a %s b  a=%s b=%s" % (op, {"dims": case["a"]["dims"], "labels": case["a"]["labels"]}, {"dims": case["b"]["dims"], "labels": case["b"]["labels"]})
+    cl = set()
     res = lib(lambda: PYOPS[op](a, b), what=what, sig=sig)
-    check_binary(res, ma, mb, op, what, sig)
+    check_binary(res, ma, mb, op, what, sig, dtypes=(a.values.dtype, b.values.dtype), cl=cl)
     res2 = lib(lambda: PYOPS[op](b, a), what="(b op a) " + what, sig=sig)
-    check_binary(res2, mb, ma, op, "(b op a) " + what, sig)
+    check_binary(res2, mb, ma, op, "(b op a) " + what, sig, dtypes=(b.values.dtype, a.values.dtype), cl=cl)
     core.expect_unchanged(a, sa, what + " [operand a]", sig)
     core.expect_unchanged(b, sb, what + " [operand b]", sig)
-    cl = set()
     shared = [d for d in case["a"]["dims"] if d in case["b"]["dims"]]
     differs = False
     for d in shared:
@@ -228,6 +239,7 @@ def run_other(case):
         for i, l in enumerate(case["a"]["labels"]):
             check(core.same_labels(res.axes[i].values, l), "labels", {"what": what, "dim": res.dims[i], "got": core.jsonable(res.axes[i].values), "expected": l}, sig)
         check(res.values.shape == exp.shape, "shape", {"what": what}, sig)
+        check(res.values.dtype.kind == np.asarray(exp).dtype.kind, "result-dtype-kind", {"what": what, "got": str(res.values.dtype), "numpy": str(np.asarray(exp).dtype)}, sig)
         for x, y in zip(res.values.ravel().tolist(), np.asarray(exp).ravel().tolist()):
             if not core.same_scalar(x, y, tol=True):
                 raise Violation("value", {"what": what, "got": core.jsonable(res.values), "expected": core.jsonable(exp)}, sig=sig)
